@@ -82,7 +82,8 @@ def classify(out, verdicts, byid):
             out.drift += 1
             ex = out.extra.setdefault("drift_examples", [])
             if len(ex) < 5:
-                ex.append({"input": rec["e"], "flatten_returned": rec["out"][0]})
+                i = {"flatten": 0, "fold": 1, "cfold": 2}[v["drift"]]
+                ex.append({"input": rec["e"], "rewrite": v["drift"], "returned": rec["out"][i]})
             continue
         pats = patterns(rec["e"])
         for b in v["bad"]:
